@@ -110,7 +110,7 @@ namespace detail
 				return Tmp + (Multiple - (Tmp % Multiple));
 			}
 			else
-				return Source + (-Source % Multiple);
+				return Source - (Source % Multiple); // the remainder has the sign of Source; -Source would overflow for the minimum value
 		}
 	};
 
